@@ -929,7 +929,11 @@ class _FuncAnalysis:
         if recv.kind == LXML:
             if m in LXML_MUT_CALLS:
                 self.mutate(recv, c, f".{m}(…) on an lxml node")
-                # moving a node: the argument's old tree loses it — not tracked
+                # lxml moves a node that already has a parent: attaching a live node somewhere else removes it from the tree it was in
+                if m in ("append", "insert", "extend", "addnext", "addprevious", "replace") and args:
+                    moved = args[-1]
+                    if moved.roots and moved.kind in (LXML, ELEM, LIST):
+                        self.mutate(moved, c, f".{m}(…) moves a live node out of its tree")
                 return PYV
             if m in LXML_NAV:
                 return Val(LXML, recv.roots)
